@@ -56,13 +56,14 @@ func run(c *core.Ctx) {
 		wg.Add(1)
 		go func(cfg string) {
 			defer wg.Done()
-			kit.ModelCheck(c, "Framing.tla", cfg, tlc.Options{Workers: 8, Timeout: 20 * time.Minute})
+			kit.ModelCheck(c, "Framing.tla", cfg, tlc.Options{Workers: 8, Timeout: 45 * time.Minute})
 		}(cfg)
 	}
 	for _, g := range gens {
 		wg.Add(1)
 		go func(g *genJob) {
 			defer wg.Done()
+			g.opt.Timeout = 45 * time.Minute // generous: the machine may be shared
 			g.out = kit.Dedupe(kit.Generate(c, "Gen_Framing.tla", g.cfg, g.opt))
 		}(g)
 	}
